@@ -55,6 +55,9 @@ pub const MAX_SAMPLES: usize = 6;
 pub struct Stats {
   pub evaluations: u64,
   pub nontrivial: HashSet<u64>,
+  // non-trivial transitions per swept slice (distinct by construction inside one sweep; keyed by
+  // the slice so that a slice swept twice counts once)
+  pub nontrivial_slices: std::collections::HashMap<u64, u64>,
   pub labels: BTreeMap<String, u64>,
   pub samples: Vec<Value>,
   pub nontrivial_samples: Vec<Value>,
@@ -90,6 +93,9 @@ impl Stats {
   pub fn nontrivial_case(&mut self, canonical_hash: u64) {
     self.nontrivial.insert(canonical_hash);
   }
+  pub fn distinct_nontrivial(&self) -> u64 {
+    self.nontrivial.len() as u64 + self.nontrivial_slices.values().sum::<u64>()
+  }
   pub fn want_sample(&self) -> bool {
     self.samples.len() < MAX_SAMPLES
   }
@@ -99,6 +105,10 @@ impl Stats {
   pub fn merge(&mut self, other: Stats) {
     self.evaluations += other.evaluations;
     self.nontrivial.extend(other.nontrivial);
+    for (k, v) in other.nontrivial_slices {
+      let e = self.nontrivial_slices.entry(k).or_insert(0);
+      *e = (*e).max(v);
+    }
     for (k, v) in other.labels {
       *self.labels.entry(k).or_insert(0) += v;
     }
